@@ -5,6 +5,8 @@
   working tree (darr/*.py + docs/, created with mkdtemp outside /repo and
   /verif, removed afterwards) and the same check is run with --root <scratch>;
   it must report a violation.
+* returns: every `fix:` commit of /repo has its reverse patch under
+  /verif/regress/<commit>/; re-introducing the defect must be reported again.
 * stays silent: every behaviour-preserving variant under /verif/benign/<id>/
   must leave the check at exit 0.
 
@@ -86,6 +88,16 @@ def corpus(pid):
                     meta = json.load(fh)
                 if pid in meta.get('detected_by', []):
                     jobs.append(('seeded', name, pp))
+    rd = os.path.join(VERIF, 'regress')
+    if os.path.isdir(rd):
+        for name in sorted(os.listdir(rd)):
+            mp = os.path.join(rd, name, 'meta.json')
+            pp = os.path.join(rd, name, 'patch.diff')
+            if os.path.exists(mp) and os.path.exists(pp):
+                with open(mp) as fh:
+                    meta = json.load(fh)
+                if pid in meta.get('detected_by', []):
+                    jobs.append(('seeded', 'reverted-fix-' + name, pp))
     bd = os.path.join(VERIF, 'benign')
     if os.path.isdir(bd):
         for name in sorted(os.listdir(bd)):
